@@ -2,6 +2,7 @@ import ParryModel.Field
 import ParryModel.C01.Model
 import ParryModel.C01.Lemmas
 import ParryModel.C01.TheoremsGjk
+import ParryModel.C01.TheoremsGlue
 /-!
 # C01 property theorems: distance / closest points are the true minimum separation.
 
@@ -1202,5 +1203,362 @@ theorem segSegParams_optimal2 (a1 b1 a2 b2 : V2 K) (hex : SegExact2 sq a1 b1 a2 
   simp only [V2.sub, V2.add, V2.smul, V2.normSq, V2.dot]
   rw [e1, e2]
   linarith
+
+
+/-! ## 8. end to end: `query::closest_points` in world space (routing + kernel + `transform_by`) -/
+
+/-- **`query::closest_points(pos1, segment1, pos2, segment2, max_dist)`, world space, full statement.** For unit quaternions
+(and the tolerance tests of the kernel exact on the relative placement, `SegExact3`): `WithinMargin(w1, w2)` ⇒ `w1`, `w2` are
+images of points of the two segments under their own poses, no pair of world points of the two segments is closer, and the gap
+is `≤ max_dist`; `Disjoint` ⇒ every world pair is farther than `max_dist`; `Intersecting` is never answered on this route
+(known finding). Goes through the dispatcher's routing, `pos1.inv_mul(pos2)`, the kernel and `transform_by`. -/
+theorem closestPointsWorld3_segment_segment (pos1 pos2 : Iso3 K) (a1 b1 a2 b2 : V3 K) (m : K) (w : CP (V3 K))
+    (h1 : C03.Unit3 pos1) (h2 : C03.Unit3 pos2) :
+    letI := fieldNum K sq
+    letI := fieldBits K
+    SegExact3 sq a1 b1 ((pos1.invMul pos2).act a2) ((pos1.invMul pos2).act b2) →
+    Glue.closestPointsWorld3 pos1 (.segment a1 b1) pos2 (.segment a2 b2) m = some w →
+    WorldSpec sq (SegAt sq a1 b1) (SegAt sq a2 b2) pos1 pos2 m w := by
+  letI := fieldNum K sq
+  letI := fieldBits K
+  intro hex hw
+  refine closestPointsWorld3_spec sq _ _ pos1 pos2 _ _ m w h1 h2 ?_ hw
+  intro r hr
+  have hspec := closestPointsSegmentSegment_spec sq (pos1.invMul pos2) a1 b1 a2 b2 m hex
+  simp only [Glue.dispatchCP3, Option.some.injEq] at hr
+  rw [hr] at hspec
+  cases r with
+  | intersecting => exact hspec.elim
+  | within p1 p2 => exact hspec
+  | disjoint => exact hspec
+
+
+section world
+open Model.Glue Model.Gjk
+
+private theorem ballAt_act (pos12 : Iso3 K) (r : K) (y : V3 K) (h : C03.Unit3 pos12) :
+    letI := fieldNum K sq
+    BallAt r ⟨0, 0, 0⟩ y → BallAt r pos12.t (pos12.act y) := by
+  letI := fieldNum K sq
+  intro hy
+  have e := IsoLemmas.rot_normSq sq pos12 y h
+  simp only [BallAt, Iso3.act, V3.add, V3.normSq, V3.dot] at hy e ⊢
+  have : ∀ a b : K, a + b - b = a := fun a b => by ring
+  rw [this, this, this]
+  linarith
+
+private theorem ballAt_invAct (pos12 : Iso3 K) (r : K) (p : V3 K) (h : C03.Unit3 pos12) :
+    letI := fieldNum K sq
+    BallAt r pos12.t p → BallAt r ⟨0, 0, 0⟩ (pos12.invAct p) := by
+  letI := fieldNum K sq
+  intro hp
+  have e := (C03.iso3_invRot_dot sq pos12 (p.sub pos12.t) (p.sub pos12.t) h).1
+  simp only [BallAt, Iso3.invAct, V3.sub, V3.dot] at hp e ⊢
+  simp only [sub_zero]
+  linarith
+
+/-- **`query::closest_points(pos1, ball1, pos2, ball2, max_dist)`, world space, full statement** (unit quaternions, radii and
+`max_dist` `≥ 0`): the answer exists (no panic) and satisfies `WorldSpec` for the two balls `B(0,r1)`, `B(0,r2)` placed by
+`pos1`, `pos2`: `Intersecting` ⇒ the placed balls share a point; `WithinMargin(w1,w2)` ⇒ the witnesses are images of points of
+their balls, no world pair is closer, gap `≤ max_dist`; `Disjoint` ⇒ every world pair is farther than `max_dist`. -/
+theorem closestPointsWorld3_ball_ball (hs : LawfulSqrt sq) (pos1 pos2 : Iso3 K) (r1 r2 m : K)
+    (h1 : C03.Unit3 pos1) (h2 : C03.Unit3 pos2) (hr1 : 0 ≤ r1) (hr2 : 0 ≤ r2) (hm : 0 ≤ m) :
+    letI := fieldNum K sq
+    letI := fieldBits K
+    ∃ w, Glue.closestPointsWorld3 pos1 (.ball r1) pos2 (.ball r2) m = some w ∧
+      WorldSpec sq (BallAt r1 ⟨0, 0, 0⟩) (BallAt r2 ⟨0, 0, 0⟩) pos1 pos2 m w := by
+  letI := fieldNum K sq
+  letI := fieldBits K
+  have hu : C03.Unit3 (pos1.invMul pos2) := C03.unit3_invMul sq pos1 pos2 h1 h2
+  have hspec := closestPointsBallBall_spec sq hs (pos1.invMul pos2) r1 r2 m hu hr1 hr2 hm
+  have hloc : ∀ r, Glue.dispatchCP3 (pos1.invMul pos2) (.ball r1) (.ball r2) m = some r →
+      LocalSpec sq (BallAt r1 ⟨0, 0, 0⟩) (BallAt r2 ⟨0, 0, 0⟩) (pos1.invMul pos2) m r := by
+    intro r hr
+    simp only [Glue.dispatchCP3] at hr
+    rw [hr] at hspec
+    generalize pos1.invMul pos2 = P at hu hspec ⊢
+    cases r with
+    | intersecting =>
+      obtain ⟨p, hp1, hp2⟩ := hspec
+      refine ⟨p, P.invAct p, hp1, ballAt_invAct sq P r2 p hu hp2, ?_⟩
+      unfold gapL
+      rw [(C03.iso3_invAct_act sq P p hu).2]
+      simp only [V3.sub, V3.normSq, V3.dot]; ring
+    | within p1 p2 =>
+      obtain ⟨hp1, hp2, _, hmin, hle, _⟩ := hspec
+      exact ⟨hp1, hp2, fun x y hx hy => hmin x (P.act y) hx (ballAt_act sq P r2 y hu hy), hle⟩
+    | disjoint =>
+      intro x y hx hy
+      exact hspec x (P.act y) hx (ballAt_act sq P r2 y hu hy)
+  cases hc : Glue.closestPointsWorld3 pos1 (.ball r1) pos2 (.ball r2) m with
+  | none =>
+    exfalso
+    simp only [Glue.closestPointsWorld3, Glue.dispatchCP3, Option.map_eq_none_iff] at hc
+    rw [hc] at hspec
+    exact hspec
+  | some w => exact ⟨w, rfl, closestPointsWorld3_spec sq _ _ pos1 pos2 _ _ m w h1 h2 hloc hc⟩
+
+
+/-- **the half-space kernel satisfies the local statement of the property** (`LocalSpec` form of
+`closestPointsHalfspaceSupportMap_spec`): half-space `{n·p ≤ 0}`, `|n| = 1`, any local set `S2` whose support map honours the
+contract in direction `-n` for the placed set, unit quaternion, `margin ≥ 0`. -/
+theorem closestPointsHalfspaceSupportMap_local (S2 : V3 K → Prop) (supp : Iso3 K → V3 K → V3 K) (pos12 : Iso3 K)
+    (n : V3 K) (m : K) (hn : n.x * n.x + n.y * n.y + n.z * n.z = 1) (hm : 0 ≤ m) (hq : C03.Unit3 pos12) :
+    letI := fieldNum K sq
+    SupportsIn (Placed3 sq pos12 S2) n.neg (supp pos12 n.neg) →
+    ∃ r, closestPointsHalfspaceSupportMap supp pos12 n m = some r ∧ LocalSpec sq (HalfAt n) S2 pos12 m r := by
+  letI := fieldNum K sq
+  intro hsup
+  have hspec := closestPointsHalfspaceSupportMap_spec sq S2 supp pos12 n m hn hm hq hsup
+  have hpl : ∀ y, S2 y → Placed3 sq pos12 S2 (pos12.act y) := by
+    intro y hy
+    unfold Placed3
+    rw [(C03.iso3_invAct_act sq pos12 y hq).1]; exact hy
+  cases hc : closestPointsHalfspaceSupportMap supp pos12 n m with
+  | none => rw [hc] at hspec; exact hspec.elim
+  | some r =>
+    rw [hc] at hspec
+    refine ⟨r, rfl, ?_⟩
+    cases r with
+    | intersecting =>
+      obtain ⟨p, hp1, hp2⟩ := hspec
+      refine ⟨p, pos12.invAct p, hp1, hp2, ?_⟩
+      unfold gapL
+      rw [(C03.iso3_invAct_act sq pos12 p hq).2]
+      simp only [V3.sub, V3.normSq, V3.dot]; ring
+    | within p1 p2 =>
+      obtain ⟨hp1, hp2, _, hmin, hle, _⟩ := hspec
+      exact ⟨hp1, hp2, fun x y hx hy => hmin x (pos12.act y) hx (hpl y hy), hle⟩
+    | disjoint =>
+      intro x y hx hy
+      exact hspec x (pos12.act y) hx (hpl y hy)
+
+/-- **`query::closest_points(pos1, halfspace, pos2, g2, max_dist)`, world space, full statement**, for every modelled
+support-mapped kind `g2` (cuboid, segment, triangle, capsule, cone, cylinder, rounded kinds): if `g2`'s `support_point` honours the
+C10 contract in direction `-n` for the set `S2` placed by `pos12 = pos1.inv_mul(pos2)`, the entry point answers (no panic) and its
+answer satisfies `WorldSpec` for the half-space and `S2`. -/
+theorem closestPointsWorld3_halfspace_sm (S2 : V3 K → Prop) (pos1 pos2 : Iso3 K) (n : V3 K) (g2 : DSh3 K) (m : K)
+    (h1 : C03.Unit3 pos1) (h2 : C03.Unit3 pos2) (hn : n.x * n.x + n.y * n.y + n.z * n.z = 1) (hm : 0 ≤ m)
+    (hb : g2.isBall = false) (hh : g2.isHalfspace = false) :
+    letI := fieldNum K sq
+    letI := fieldBits K
+    SupportsIn (Placed3 sq (pos1.invMul pos2) S2) n.neg (g2.posed (pos1.invMul pos2) n.neg) →
+    ∃ w, Glue.closestPointsWorld3 pos1 (.halfspace n) pos2 g2 m = some w ∧ WorldSpec sq (HalfAt n) S2 pos1 pos2 m w := by
+  letI := fieldNum K sq
+  letI := fieldBits K
+  intro hsup
+  have hu : C03.Unit3 (pos1.invMul pos2) := C03.unit3_invMul sq pos1 pos2 h1 h2
+  obtain ⟨r, hr, hloc⟩ := closestPointsHalfspaceSupportMap_local sq S2 g2.posed (pos1.invMul pos2) n m hn hm hu hsup
+  have hd : Glue.dispatchCP3 (pos1.invMul pos2) (.halfspace n) g2 m = some r := by
+    rw [← hr]
+    cases g2 <;> first | rfl | (simp [DSh3.isBall, DSh3.isHalfspace] at hb hh)
+  refine ⟨transformBy3 r pos1 pos2, ?_, transformBy3_spec sq _ _ pos1 pos2 m r h1 h2 hloc⟩
+  simp only [Glue.closestPointsWorld3, hd, Option.map_some]
+
+/-- **`query::closest_points(pos1, g1, pos2, halfspace, max_dist)`** (mirrored route `closest_points_support_map_halfspace`:
+inverse pose, swapped roles, `.flipped()`, then `transform_by`): same statement with the roles exchanged. The support contract is
+needed for the placement by `pos12⁻¹`. -/
+theorem closestPointsWorld3_sm_halfspace (S1 : V3 K → Prop) (pos1 pos2 : Iso3 K) (n : V3 K) (g1 : DSh3 K) (m : K)
+    (h1 : C03.Unit3 pos1) (h2 : C03.Unit3 pos2) (hn : n.x * n.x + n.y * n.y + n.z * n.z = 1) (hm : 0 ≤ m)
+    (hb : g1.isBall = false) (hh : g1.isHalfspace = false) :
+    letI := fieldNum K sq
+    letI := fieldBits K
+    SupportsIn (Placed3 sq (pos1.invMul pos2).inverse S1) n.neg (g1.posed (pos1.invMul pos2).inverse n.neg) →
+    ∃ w, Glue.closestPointsWorld3 pos1 g1 pos2 (.halfspace n) m = some w ∧ WorldSpec sq S1 (HalfAt n) pos1 pos2 m w := by
+  letI := fieldNum K sq
+  letI := fieldBits K
+  intro hsup
+  have hu : C03.Unit3 (pos1.invMul pos2) := C03.unit3_invMul sq pos1 pos2 h1 h2
+  have hui : C03.Unit3 (pos1.invMul pos2).inverse := C03.unit3_inverse sq _ hu
+  obtain ⟨r, hr, hloc⟩ := closestPointsHalfspaceSupportMap_local sq S1 g1.posed (pos1.invMul pos2).inverse n m hn hm hui hsup
+  have hd : Glue.dispatchCP3 (pos1.invMul pos2) g1 (.halfspace n) m = some (flipped r) := by
+    have : Glue.closestPointsSmHalfspace3 g1.posed (pos1.invMul pos2) n m = some (flipped r) := by
+      simp only [Glue.closestPointsSmHalfspace3, hr, Option.map_some]
+    rw [← this]
+    cases g1 <;> first | rfl | (simp [DSh3.isBall, DSh3.isHalfspace] at hb hh)
+  refine ⟨transformBy3 (flipped r) pos1 pos2, ?_,
+    transformBy3_spec sq _ _ pos1 pos2 m _ h1 h2 (flipped_spec sq S1 (HalfAt n) (pos1.invMul pos2) m r hu hloc)⟩
+  simp only [Glue.closestPointsWorld3, hd, Option.map_some]
+
+
+/-- **`query::distance(pos1, ball1, pos2, ball2)`, world space, full statement** (unit quaternions, radii `≥ 0`): the value is
+`≥ 0`, a lower bound of the distance between any point of the first placed ball and any point of the second, and attained. -/
+theorem distanceWorld3_ball_ball (hs : LawfulSqrt sq) (pos1 pos2 : Iso3 K) (r1 r2 : K)
+    (h1 : C03.Unit3 pos1) (h2 : C03.Unit3 pos2) (hr1 : 0 ≤ r1) (hr2 : 0 ≤ r2) :
+    letI := fieldNum K sq
+    letI := fieldBits K
+    ∃ D, Glue.distanceWorld3 pos1 (.ball r1) pos2 (.ball r2) = some D ∧ 0 ≤ D ∧
+      (∀ x y, BallAt r1 ⟨0, 0, 0⟩ x → BallAt r2 ⟨0, 0, 0⟩ y → D * D ≤ gapW sq pos1 pos2 x y) ∧
+      (∃ x y, BallAt r1 ⟨0, 0, 0⟩ x ∧ BallAt r2 ⟨0, 0, 0⟩ y ∧ gapW sq pos1 pos2 x y = D * D) := by
+  letI := fieldNum K sq
+  letI := fieldBits K
+  have hu : C03.Unit3 (pos1.invMul pos2) := C03.unit3_invMul sq pos1 pos2 h1 h2
+  obtain ⟨h0, hlow, a, b, ha, hb, hab⟩ := distanceBallBall_spec sq hs r1 r2 (pos1.invMul pos2).t hr1 hr2
+  refine ⟨_, rfl, h0, ?_, ?_⟩
+  · intro x y hx hy
+    rw [gapW_eq_gapL sq pos1 pos2 x y h1 h2]
+    exact hlow x _ hx (ballAt_act sq _ r2 y hu hy)
+  · refine ⟨a, (pos1.invMul pos2).invAct b, ha, ballAt_invAct sq _ r2 b hu hb, ?_⟩
+    rw [gapW_eq_gapL sq pos1 pos2 _ _ h1 h2]
+    unfold gapL
+    rw [(C03.iso3_invAct_act sq _ b hu).2]
+    exact hab
+
+/-- **`distance_segment_segment` is the true minimum distance** (kernel level, shape 2 placed by `pos12`; tolerance tests exact,
+`SegExact3`): the value `D` is `≥ 0`; either it is attained by a pair of points of the two segments and no pair is closer
+(`D² = gap(p1,p2) ≤ gap(x,y)`), or every pair is farther apart than `f64::MAX` (then the function answers `0`; outside the
+domain of the property). -/
+theorem distanceSegmentSegment3_spec (hs : LawfulSqrt sq) (pos12 : Iso3 K) (a1 b1 a2 b2 : V3 K) :
+    letI := fieldNum K sq
+    letI := fieldBits K
+    SegExact3 sq a1 b1 (pos12.act a2) (pos12.act b2) →
+    0 ≤ Glue.distanceSegmentSegment3 pos12 a1 b1 a2 b2 ∧
+    ((∃ p1 p2, SegAt sq a1 b1 p1 ∧ SegAt sq a2 b2 p2 ∧
+        Glue.distanceSegmentSegment3 pos12 a1 b1 a2 b2 * Glue.distanceSegmentSegment3 pos12 a1 b1 a2 b2 = gapL sq pos12 p1 p2 ∧
+        ∀ x y, SegAt sq a1 b1 x → SegAt sq a2 b2 y → gapL sq pos12 p1 p2 ≤ gapL sq pos12 x y) ∨
+     (Glue.distanceSegmentSegment3 pos12 a1 b1 a2 b2 = 0 ∧
+        ∀ x y, SegAt sq a1 b1 x → SegAt sq a2 b2 y → (realMax : K) * realMax < gapL sq pos12 x y)) := by
+  letI := fieldNum K sq
+  letI := fieldBits K
+  intro hex
+  have hspec := closestPointsSegmentSegment_spec sq pos12 a1 b1 a2 b2 realMax hex
+  unfold Glue.distanceSegmentSegment3
+  cases hc : closestPointsSegmentSegment pos12 a1 b1 a2 b2 realMax with
+  | intersecting => rw [hc] at hspec; exact hspec.elim
+  | disjoint =>
+    rw [hc] at hspec
+    exact ⟨le_refl _, Or.inr ⟨rfl, hspec⟩⟩
+  | within p1 p2 =>
+    rw [hc] at hspec
+    obtain ⟨hp1, hp2, hmin, _⟩ := hspec
+    have hnn : 0 ≤ ((pos12.act p2).sub p1).normSq := by
+      simp only [V3.normSq, V3.dot]; nlinarith [mul_self_nonneg ((pos12.act p2).sub p1).x, mul_self_nonneg ((pos12.act p2).sub p1).y, mul_self_nonneg ((pos12.act p2).sub p1).z]
+    simp only [V3.norm, fieldNum_sqrt]
+    exact ⟨hs.nonneg _ hnn, Or.inl ⟨p1, p2, hp1, hp2, hs.sq_mul _ hnn, hmin⟩⟩
+
+/-- **`query::distance(pos1, segment1, pos2, segment2)`, world space**: routing + `inv_mul` + kernel. For unit quaternions and
+exact tolerance tests the value is `≥ 0`, attained by a pair of world points of the two placed segments, and no world pair is
+closer (or every pair is farther apart than `f64::MAX`). -/
+theorem distanceWorld3_segment_segment (hs : LawfulSqrt sq) (pos1 pos2 : Iso3 K) (a1 b1 a2 b2 : V3 K)
+    (h1 : C03.Unit3 pos1) (h2 : C03.Unit3 pos2) :
+    letI := fieldNum K sq
+    letI := fieldBits K
+    SegExact3 sq a1 b1 ((pos1.invMul pos2).act a2) ((pos1.invMul pos2).act b2) →
+    ∃ D, Glue.distanceWorld3 pos1 (.segment a1 b1) pos2 (.segment a2 b2) = some D ∧ 0 ≤ D ∧
+      ((∃ p1 p2, SegAt sq a1 b1 p1 ∧ SegAt sq a2 b2 p2 ∧ D * D = gapW sq pos1 pos2 p1 p2 ∧
+          ∀ x y, SegAt sq a1 b1 x → SegAt sq a2 b2 y → gapW sq pos1 pos2 p1 p2 ≤ gapW sq pos1 pos2 x y) ∨
+       (D = 0 ∧ ∀ x y, SegAt sq a1 b1 x → SegAt sq a2 b2 y → (realMax : K) * realMax < gapW sq pos1 pos2 x y)) := by
+  letI := fieldNum K sq
+  letI := fieldBits K
+  intro hex
+  obtain ⟨h0, h⟩ := distanceSegmentSegment3_spec sq hs (pos1.invMul pos2) a1 b1 a2 b2 hex
+  refine ⟨_, rfl, h0, ?_⟩
+  rcases h with ⟨p1, p2, hp1, hp2, e, hmin⟩ | ⟨e, hfar⟩
+  · left
+    refine ⟨p1, p2, hp1, hp2, ?_, ?_⟩
+    · rw [gapW_eq_gapL sq pos1 pos2 p1 p2 h1 h2]; exact e
+    · intro x y hx hy
+      rw [gapW_eq_gapL sq pos1 pos2 p1 p2 h1 h2, gapW_eq_gapL sq pos1 pos2 x y h1 h2]; exact hmin x y hx hy
+  · right
+    refine ⟨e, fun x y hx hy => ?_⟩
+    rw [gapW_eq_gapL sq pos1 pos2 x y h1 h2]; exact hfar x y hx hy
+
+/-- **`query::closest_points` through the GJK route answers `Disjoint` only when the placed shapes are farther apart than
+`max_dist`** (world space; routing + `inv_mul` + `closest_points_support_map_support_map` + `transform_by`). `hroute` says the
+dispatcher takes the support-map route for this pair of kinds (true by `rfl` for every pair of non-ball, non-half-space kinds
+that are not both segments, see the example below); the support contract is the C10 one for the obstacle `A ⊖ pos12·B`.
+The alternative is GJK's non-convergence fallback (`niter == 100`). -/
+theorem closestPointsWorld3_gjk_disjoint_sound (hs : LawfulSqrt sq) (A B : V3 K → Prop) (pos1 pos2 : Iso3 K) (g1 g2 : DSh3 K) (m : K)
+    (h1 : C03.Unit3 pos1) (h2 : C03.Unit3 pos2) (hm : 0 ≤ m) :
+    letI := fieldNum K sq
+    letI := fieldBits K
+    Glue.dispatchCP3 (pos1.invMul pos2) g1 g2 m =
+      Glue.closestPointsSmSm3 (fromShapes3 g1.loc (g2.posed (pos1.invMul pos2))) (pos1.invMul pos2) m →
+    SupportsCSO3 (Obstacle3 sq A B (pos1.invMul pos2)) (fromShapes3 g1.loc (g2.posed (pos1.invMul pos2))) →
+    Glue.closestPointsWorld3 pos1 g1 pos2 g2 m = some .disjoint →
+    WorldSpec sq A B pos1 pos2 m .disjoint ∨
+      (gjkClosestPoints3 (fromShapes3 g1.loc (g2.posed (pos1.invMul pos2))) (some m) true
+        (gjkStart3 (fromShapes3 g1.loc (g2.posed (pos1.invMul pos2))) (pos1.invMul pos2).t none Vs3.new)).1 = .noIntersection ⟨1, 0, 0⟩ := by
+  letI := fieldNum K sq
+  letI := fieldBits K
+  intro hroute hsup hw
+  unfold Glue.closestPointsWorld3 at hw
+  rw [hroute] at hw
+  cases hc : Glue.closestPointsSmSm3 (fromShapes3 g1.loc (g2.posed (pos1.invMul pos2))) (pos1.invMul pos2) m with
+  | none => rw [hc] at hw; simp at hw
+  | some r =>
+    rw [hc] at hw
+    simp only [Option.map_some, Option.some.injEq] at hw
+    cases r with
+    | intersecting => simp [Glue.transformBy3] at hw
+    | within p1 p2 => simp [Glue.transformBy3] at hw
+    | disjoint =>
+      rcases closestPointsSmSm3_disjoint_sound sq hs A B _ (pos1.invMul pos2) m hm hsup hc with h | h
+      · exact Or.inl (transformBy3_spec sq A B pos1 pos2 m .disjoint h1 h2 h)
+      · exact Or.inr h
+
+/-- the routing hypothesis of `closestPointsWorld3_gjk_disjoint_sound` holds by computation, e.g. cuboid × triangle, capsule × rounded
+cuboid, segment × cone -/
+example (P : Iso3 ℚ) (m : ℚ) (he a b c : V3 ℚ) (r : ℚ) :
+    letI := fieldNum ℚ (fun x => x)
+    letI := fieldBits ℚ
+    (Glue.dispatchCP3 P (.cuboid he) (.triangle a b c) m =
+      Glue.closestPointsSmSm3 (fromShapes3 (DSh3.cuboid he).loc ((DSh3.triangle a b c).posed P)) P m) ∧
+    (Glue.dispatchCP3 P (.capsule a b r) (.round (.cuboid he) r) m =
+      Glue.closestPointsSmSm3 (fromShapes3 (DSh3.capsule a b r).loc ((DSh3.round (.cuboid he) r).posed P)) P m) ∧
+    (Glue.dispatchCP3 P (.segment a b) (.cone r r) m =
+      Glue.closestPointsSmSm3 (fromShapes3 (DSh3.segment a b).loc ((DSh3.cone r r).posed P)) P m) := ⟨rfl, rfl, rfl⟩
+
+private theorem c10_copysign_eq (mag sgn : K) :
+    letI := fieldNum K sq
+    letI := fieldBits K
+    C10.copysign mag sgn = Dist.copysign mag sgn := by
+  letI := fieldNum K sq
+  letI := fieldBits K
+  simp only [C10.copysign, copysign, fieldNum_nabs, one_div, inv_lt_zero, or_self]
+
+/-- the dispatcher model's cuboid support map is the support map of the half-space theorems -/
+private theorem dsh_cuboid_posed (he : V3 K) (P : Iso3 K) (d : V3 K) :
+    letI := fieldNum K sq
+    letI := fieldBits K
+    (DSh3.cuboid he).posed P d = Dist.cuboidSupport he P d := by
+  letI := fieldNum K sq
+  letI := fieldBits K
+  simp only [DSh3.posed, DSh3.loc, C10.supportPoint3, C10.cuboidLocal3, Dist.cuboidSupport, Dist.cuboidLocalSupport, c10_copysign_eq sq]
+
+/-- **`query::closest_points(pos1, halfspace, pos2, cuboid, max_dist)` and `(pos1, cuboid, pos2, halfspace, max_dist)`, world
+space, no abstract hypothesis**: unit quaternions, unit normal, half-extents and `max_dist` `≥ 0`. Both orders answer (no panic)
+and the answer satisfies `WorldSpec` for the half-space `{n·p ≤ 0}` and the box `[-he, he]` placed by their poses
+(dispatcher routing, `inv_mul`, kernel, `Cuboid::support_point` = `copy_sign_to`, for the second order also `pos12.inverse()`
+and `.flipped()`, then `transform_by`). -/
+theorem closestPointsWorld3_halfspace_cuboid (pos1 pos2 : Iso3 K) (n he : V3 K) (m : K)
+    (h1 : C03.Unit3 pos1) (h2 : C03.Unit3 pos2) (hn : n.x * n.x + n.y * n.y + n.z * n.z = 1) (hm : 0 ≤ m)
+    (hhe : 0 ≤ he.x ∧ 0 ≤ he.y ∧ 0 ≤ he.z) :
+    letI := fieldNum K sq
+    letI := fieldBits K
+    (∃ w, Glue.closestPointsWorld3 pos1 (.halfspace n) pos2 (.cuboid he) m = some w ∧
+      WorldSpec sq (HalfAt n) (CubAt he) pos1 pos2 m w) ∧
+    (∃ w, Glue.closestPointsWorld3 pos1 (.cuboid he) pos2 (.halfspace n) m = some w ∧
+      WorldSpec sq (CubAt he) (HalfAt n) pos1 pos2 m w) := by
+  letI := fieldNum K sq
+  letI := fieldBits K
+  have hu : C03.Unit3 (pos1.invMul pos2) := C03.unit3_invMul sq pos1 pos2 h1 h2
+  have hui : C03.Unit3 (pos1.invMul pos2).inverse := C03.unit3_inverse sq _ hu
+  constructor
+  · refine closestPointsWorld3_halfspace_sm sq (CubAt he) pos1 pos2 n (.cuboid he) m h1 h2 hn hm rfl rfl ?_
+    rw [dsh_cuboid_posed]
+    exact cuboidSupport_supports sq he _ _ hhe hu
+  · refine closestPointsWorld3_sm_halfspace sq (CubAt he) pos1 pos2 n (.cuboid he) m h1 h2 hn hm rfl rfl ?_
+    rw [dsh_cuboid_posed]
+    exact cuboidSupport_supports sq he _ _ hhe hui
+
+end world
+
+/-- non-vacuity of the side conditions of the world theorems: two unit quaternions over `ℚ` (one far from the origin), a unit
+normal, a non-ball non-half-space kind -/
+example : C03.Unit3 (⟨0, 0, 3/5, 4/5, ⟨1, -2, 3⟩⟩ : Iso3 ℚ) ∧ C03.Unit3 (⟨1/2, -1/2, 1/2, 1/2, ⟨0, 700, 1/3⟩⟩ : Iso3 ℚ) ∧
+    ((0 : ℚ) * 0 + (3/5) * (3/5) + (-4/5) * (-4/5) = 1) ∧ (Glue.DSh3.cuboid (⟨1, 2, 3⟩ : V3 ℚ)).isBall = false ∧
+    (Glue.DSh3.round (Glue.DSh3.cuboid (⟨1, 2, 3⟩ : V3 ℚ)) (1/4)).isHalfspace = false := by
+  refine ⟨by unfold C03.Unit3; norm_num, by unfold C03.Unit3; norm_num, by norm_num, rfl, rfl⟩
 
 end C01
